@@ -602,6 +602,15 @@ func cmdScan(args []string) int {
 		fmt.Printf("ALL UNANALYSABLE %v\n", err)
 		return 0
 	}
+	known, _ := core.LoadFindings(filepath.Join(verifDir(), "known_findings.txt"))
+	isKnown := func(id string, o core.Obligation) bool {
+		for _, k := range known {
+			if k.Property == id && k.Rule == o.Rule && k.Construct == o.Construct {
+				return true
+			}
+		}
+		return false
+	}
 	for _, id := range rules.All() {
 		rs := rules.Get(id)
 		func() {
@@ -615,7 +624,7 @@ func cmdScan(args []string) int {
 			rs.Run(ctx)
 			fired := map[string]bool{}
 			for _, o := range res.Obls {
-				if o.Status != core.Discharged {
+				if o.Status != core.Discharged && !isKnown(id, o) {
 					fired[o.Rule] = true
 				}
 			}
